@@ -405,6 +405,8 @@ class Interp:
             else:
                 # a fresh array updated in place stays the same fresh object
                 res = res.copy(born=cur.born if cur.born else res.born)
+                if cur.kind == "arr" and opname in ("Mult", "Div") and ("eigvecs" in cur.tags or "orth" in cur.tags):
+                    res = res.copy(tags=res.tags | (cur.tags & {"eigvecs", "orth", "transposed"}), extra=cur.extra)
             st.env[t.id] = res
             return st
         if isinstance(t, ast.Attribute):
@@ -714,6 +716,8 @@ class Interp:
                     self.assign(e, x, st, node)
             else:
                 el = self.element_of(v, st, node)
+                if "where" in v.tags and n >= 2:
+                    el = el.copy(tags=el.tags | {"dup-index"})
                 for e in target.elts:
                     if isinstance(e, ast.Starred):
                         self.assign(e.value, Val(kind="list", elem=el, dim=el.dim, deps=el.deps, al=el.al), st, node)
@@ -742,6 +746,10 @@ class Interp:
                           sub=None, rhs=v, cur=None, result=v)
                 return
             self.write_inplace(base, "set", (target.slice, idx), v, st, node)
+            if "dup-index" in idx.tags:
+                self.emit(st, "scatter-dup", node, index=idx, value=v, target=ast.unparse(target.value))
+            if isinstance(target.value, ast.Name) and not base.al:
+                self.emit(st, "local-store", node, name=target.value.id, value=v, index=idx)
             if isinstance(target.value, ast.Name) and target.value.id not in st.env and not self._in_closure(target.value.id):
                 self.emit(st, "global-write", node, name=target.value.id, rhs=v)
             # local containers: remember what was stored
@@ -1695,6 +1703,9 @@ class Interp:
             result = result.copy(tags=result.tags | {("getter", role[1])})
         if fn.name not in ("<lambda>",) and role is None:
             result = result.copy(tags=result.tags | {("ret", fn.name)})
+            if bound_self is not None and not result.has_const() and not frame.is_gen:
+                # pseudo-dependence on the helper that produced the value (provenance for "computed by ..." rules)
+                result.deps = result.deps | {("call", fn.name)}
             if (bound_self is not None and bound_self.obj is not None and result.sym is None and not result.al
                     and result.kind in ("float", "unknown", "arr") and result.obj is None and result.items is None
                     and result.mapping is None and not frame.is_gen and not fn.name.startswith("__")):
